@@ -417,10 +417,14 @@ pub fn rotation_worker(tier: &str) {
                 };
                 let want: BTreeSet<usize> = (kept_from..n).filter(|i| ts[*i] >= since).collect();
                 if !want.is_subset(&got) {
-                    let missing: Vec<_> = want.difference(&got).collect();
+                    let missing: Vec<_> = want.difference(&got).cloned().collect();
+                    // whole files are dropped: when the current file is not full, up to one file's
+                    // worth of records minus one falls out although the log is below its size
+                    let per_file = (per_file_limit / 25).max(1) as usize;
+                    let granularity_only = phase == 1 && missing.iter().all(|i| *i < kept_from + per_file - 1);
                     println!(
                         "V\t{}\trotation file_limit={}B n={} rotated_files={} {}\tsince {}: missing record indices {:?} (returned {:?})",
-                        if phase == 0 { "record-missed" } else { "record-within-log-size-dropped" },
+                        if phase == 0 { "record-missed" } else if granularity_only { "record-within-log-size-dropped-with-its-whole-file" } else { "record-within-log-size-dropped" },
                         per_file_limit, n, nb, rel_since(&ts, since), since, missing, got
                     );
                 }
